@@ -38,6 +38,10 @@ def erase_modules(c):
     if isinstance(c, tuple):
         if len(c) == 3 and c[0] == "glob":
             return ("glob", "*", c[2])
+        if len(c) == 2 and c[0] in ("set", "frozenset") and isinstance(c[1], tuple):
+            # two globals that differ only in their module are one element once the modules are erased
+            elems = {erase_modules(x) for x in c[1]}
+            return (c[0], tuple(sorted(elems, key=repr)))
         return tuple(erase_modules(x) for x in c)
     return c
 
